@@ -117,6 +117,17 @@ def main():
         out["caught_by"] = sorted(c for c, r in det.items() if isinstance(r, dict) and r.get("exit") == 1)
     dest = f"{VERIF}/seeded/{sid}"
     os.makedirs(dest, exist_ok=True)
+    # keep results of earlier runs for checks not re-run this time
+    if os.path.exists(f"{dest}/meta.json") and "detection" in out and isinstance(out["detection"], dict):
+        try:
+            old = json.load(open(f"{dest}/meta.json")).get("detection", {})
+            if isinstance(old, dict):
+                merged = dict(old)
+                merged.update(out["detection"])
+                out["detection"] = merged
+                out["caught_by"] = sorted(c for c, r in merged.items() if isinstance(r, dict) and r.get("exit") == 1)
+        except Exception:
+            pass
     for f in ("patch.diff", "demo.rs"):
         shutil.copy(f"{seed}/{f}", f"{dest}/{f}")
     json.dump(out, open(f"{dest}/meta.json", "w"), indent=1)
